@@ -478,6 +478,10 @@ func (e *Engine) callModular(fr *Frame, st *State, fc *FuncContract, name string
 		e.ctx.Assume(implies(st.pc, or(eq(r, "0"), and(sx(">", r, pre.top), sx("<=", r, st.top)))))
 	}
 	for _, en := range fc.Ensures {
+		if strings.Contains(en.Src, "\\local_") {
+			// a postcondition about the callee's local variables says nothing to a caller
+			continue
+		}
 		g := e.evalClause(en, post, "ensures of "+shortName(name))
 		e.ctx.Assume(implies(st.pc, g))
 	}
